@@ -336,7 +336,7 @@ impl<S: Spec, C: flatcontainer::impls::index::IndexContainer<Idx<S>> + 'static> 
     fn step(&mut self, op: OpId) -> Step {
         let what = self.describe(op);
         let zst = self.e.zst;
-        let refuse = |p: &String| zst && p.contains("capacity overflow");
+        let refuse = |p: &String| zst && crate::engine::exhaustion(p);
         match self.ops[op as usize].clone() {
             OpDef::CopyOwned(v) | OpDef::CopyRef(v) => {
                 let f = if matches!(self.ops[op as usize], OpDef::CopyOwned(_)) { self.caps.copy_owned.unwrap() } else { self.caps.copy_ref.unwrap() };
